@@ -559,7 +559,8 @@ Definition im_translate (F : list stmt_fact) (rids : list N) (d : db) : result :
 Definition res_found {A} (d : db) (mk : A -> rval) (o : option A) : result :=
   match o with Some x => Ok d (mk x) | None => Fail ENotFound end.
 
-(* CreateMailbox: INSERT INTO mailboxes_v2 ... RETURNING id; CREATE TABLE mailbox_message_<id>; flag rows *)
+(* CreateMailbox: INSERT INTO mailboxes_v2 ... RETURNING id; the deleted_subscriptions entry of that name goes;
+   CREATE TABLE mailbox_message_<id>; flag rows *)
 Definition op_create_mailbox (remote name uidv : N) (fl pfl at_ : list flag) (d : db) : result :=
   if existsb (fun x => N.eqb (mb_remote x) remote) (d_mboxes d) then Fail EOther
   else if existsb (fun x => N.eqb (mb_name x) name) (d_mboxes d) then Fail EOther
@@ -568,7 +569,9 @@ Definition op_create_mailbox (remote name uidv : N) (fl pfl at_ : list flag) (d 
        Ok (mkDb (d_mboxes d ++ [m]) id
              (d_bflags d ++ map (fun f => (id, f)) fl) (d_bpflags d ++ map (fun f => (id, f)) pfl)
              (d_battrs d ++ map (fun f => (id, f)) at_)
-             (d_msgs d) (d_flags d) (d_m2m d) (d_tabs d ++ [mkTab id 0 []]) (d_subs d) (d_settings d)) (RMbox m).
+             (d_msgs d) (d_flags d) (d_m2m d) (d_tabs d ++ [mkTab id 0 []])
+             (filter (fun p => negb (N.eqb (fst p) name)) (d_subs d))    (* RemoveDeletedSubscriptionWithName(name) *)
+             (d_settings d)) (RMbox m).
 
 Definition op_get_or_create_mailbox (remote name uidv : N) (fl pfl at_ : list flag) (d : db) : result :=
   match find_mbox_remote remote d with
@@ -613,12 +616,14 @@ Definition op_delete_mailbox (remote : N) (d : db) : result :=
 Definition upd_mbox (d : db) (sel : mbox -> bool) (u : mbox -> mbox) : db * N :=
   (set_mboxes d (map (fun x => if sel x then u x else x) (d_mboxes d)), N.of_nat (length (filter sel (d_mboxes d)))).
 
-(* RenameMailboxWithRemoteID: UPDATE ... SET name = ? WHERE remote_id = ? ; "no values changed" is an error; UNIQUE name *)
+(* RenameMailboxWithRemoteID: UPDATE ... SET name = ? WHERE remote_id = ? ; "no values changed" is an error; UNIQUE name;
+   then the deleted_subscriptions entry of the new name goes *)
 Definition op_rename_mailbox (remote name : N) (d : db) : result :=
   match find_mbox_remote remote d with
   | None => Fail EOther
   | Some m => if existsb (fun x => N.eqb (mb_name x) name && negb (N.eqb (mb_id x) (mb_id m))) (d_mboxes d) then Fail EOther
-              else Ok (fst (upd_mbox d (fun x => N.eqb (mb_remote x) remote) (fun x => mkMbox (mb_id x) (mb_remote x) name (mb_uidv x) (mb_sub x)))) RUnit
+              else let d1 := fst (upd_mbox d (fun x => N.eqb (mb_remote x) remote) (fun x => mkMbox (mb_id x) (mb_remote x) name (mb_uidv x) (mb_sub x))) in
+                   Ok (set_subs d1 (filter (fun p => negb (N.eqb (fst p) name)) (d_subs d1))) RUnit
   end.
 Definition op_set_subscribed (b : N) (v : bool) (d : db) : result :=
   Ok (fst (upd_mbox d (fun x => N.eqb (mb_id x) b) (fun x => mkMbox (mb_id x) (mb_remote x) (mb_name x) (mb_uidv x) v))) RUnit.
